@@ -1,20 +1,41 @@
 package space
 
 import (
-	"github.com/marekgalovic/anndb/math";
-	"github.com/marekgalovic/anndb/simd/sse";
+	"unsafe"
+
+	"github.com/marekgalovic/anndb/math"
+	"github.com/marekgalovic/anndb/simd/sse"
 )
 
-type sseSpaceImpl struct {}
+type sseSpaceImpl struct{}
+
+// The SSE kernels use aligned loads (movaps) and fault on vectors that do not
+// start on a 16-byte boundary, which Go does not guarantee for []float32.
+// Unaligned inputs take the portable implementation.
+func sseAligned(a, b math.Vector) bool {
+	if len(a) == 0 || len(b) == 0 {
+		return false
+	}
+	return uintptr(unsafe.Pointer(&a[0]))%16 == 0 && uintptr(unsafe.Pointer(&b[0]))%16 == 0
+}
 
 func (sseSpaceImpl) EuclideanDistance(a, b math.Vector) float32 {
-    return sse.EuclideanDistance(a, b)
+	if !sseAligned(a, b) {
+		return nativeSpaceImpl{}.EuclideanDistance(a, b)
+	}
+	return sse.EuclideanDistance(a, b)
 }
 
 func (sseSpaceImpl) ManhattanDistance(a, b math.Vector) float32 {
-    return sse.ManhattanDistance(a, b)
+	if !sseAligned(a, b) {
+		return nativeSpaceImpl{}.ManhattanDistance(a, b)
+	}
+	return sse.ManhattanDistance(a, b)
 }
 
 func (sseSpaceImpl) CosineDistance(a, b math.Vector) float32 {
-    return sse.CosineDistance(a, b)
+	if !sseAligned(a, b) {
+		return nativeSpaceImpl{}.CosineDistance(a, b)
+	}
+	return sse.CosineDistance(a, b)
 }
